@@ -354,6 +354,10 @@ type mouseCase struct {
 	AltScroll    bool   `json:"alt_scroll,omitempty"` // 1007
 	AltScreen    bool   `json:"alt_screen,omitempty"` // 1049
 	Written      string `json:"written,omitempty"`
+	// Mods: modifiers held while the mouse event happened (the statement
+	// promises button, position and type; what is enabled does not depend on
+	// modifiers)
+	Mods int `json:"modifiers_held,omitempty"`
 }
 
 func runMouse(w *harness.W, s spec) {
@@ -429,7 +433,8 @@ func runMouse(w *harness.W, s spec) {
 			} else {
 				setModes(m, onoff(1049, mc.AltScreen), onoff(1000, mc.M1000), onoff(1002, mc.M1002), onoff(1003, mc.M1003), onoff(1006, mc.M1006), onoff(1007, mc.AltScroll))
 			}
-			ev := vaxis.Mouse{Button: vaxis.MouseButton(mc.Button), Col: mc.Col, Row: mc.Row, EventType: vaxis.EventType(mc.Type)}
+			mc.Mods = []int{0, 0, mShift, mAlt, mCtrl, mShift | mAlt | mCtrl}[i%6]
+			ev := vaxis.Mouse{Button: vaxis.MouseButton(mc.Button), Col: mc.Col, Row: mc.Row, EventType: vaxis.EventType(mc.Type), Modifiers: vaxis.ModifierMask(mc.Mods)}
 			val, stack, panicked := harness.Recover(func() { m.Update(ev) })
 			if panicked {
 				w.ViolationStack("panic:"+harness.PanicKey(val, stack), "Update panicked", mc, val, "no panic", stack)
